@@ -88,8 +88,8 @@ Proof.
         -- eapply CE_open; try reflexivity; try assumption.
            ++ unfold asn_acceptable.
               apply andb_false_iff in Hexp as [H|H]; apply negb_false_iff, N.eqb_eq in H; auto.
-           ++ cbn [fst snd]. destruct (N.min (c_local_hold c) hold =? 0); [destruct (c_local_hold c =? 0)|]; reflexivity.
-           ++ cbn [fst snd]. destruct (N.min (c_local_hold c) hold =? 0); [destruct (c_local_hold c =? 0)|]; reflexivity.
+           ++ cbn [fst snd]. destruct (N.min (open_hold (c_local_hold c)) hold =? 0); [destruct (c_local_hold c =? 0)|]; reflexivity.
+           ++ cbn [fst snd]. destruct (N.min (open_hold (c_local_hold c)) hold =? 0); [destruct (c_local_hold c =? 0)|]; reflexivity.
       * apply CE_same; reflexivity.
     + unfold on_keepalive. destruct (c_state c) eqn:Hs;
         try (apply CE_same; reflexivity).
@@ -131,7 +131,7 @@ Proof.
       destruct (c_state c) eqn:Hs; cbn [st_eqb st_code N.eqb Pos.eqb negb allowed orb]; try reflexivity.
       destruct (negb (c_expected_asn c =? 0) && negb (c_expected_asn c =? asn)); cbn [snd];
         [reflexivity|].
-      destruct (N.min (c_local_hold c) hold =? 0); [destruct (c_local_hold c =? 0)|]; reflexivity.
+      destruct (N.min (open_hold (c_local_hold c)) hold =? 0); [destruct (c_local_hold c =? 0)|]; reflexivity.
     + unfold on_keepalive. destruct (c_state c); reflexivity.
     + unfold on_update. destruct (c_state c); reflexivity.
     + reflexivity.
@@ -586,7 +586,7 @@ Proof.
     destruct (existsb is_down l) eqn:E; [|reflexivity].
     apply existsb_exists in E as (o & Ho & Hd). rewrite (Hl o Ho) in Hd. discriminate. }
   rewrite Hent. rewrite Hdn.
-  2:{ intros o Ho. destruct (N.min (c_local_hold c) hold =? 0); [destruct (c_local_hold c =? 0)|];
+  2:{ intros o Ho. destruct (N.min (open_hold (c_local_hold c)) hold =? 0); [destruct (c_local_hold c =? 0)|];
       cbn in Ho; intuition (subst; reflexivity). }
   unfold collide.
   pose proof (check_collision_spec (set_slot p r (Some c')) r c' (slot_set_same _ _ _)) as [_ Hcc].
